@@ -338,6 +338,12 @@ impl<W: WorldSpec> Engine<W> {
                     }
                 }
             }
+            if full && matches!(key, Key::A(_) | Key::DA(_)) {
+                // find macros with a parameterless closure: found iff alive
+                let w = self.ws[wid].as_mut().unwrap();
+                verdicts.push(("ecs_find!(.., || ..)", catch(|| w.find_unit(false, key))));
+                verdicts.push(("ecs_find_borrow!(.., || ..)", catch(|| w.find_unit(true, key))));
+            }
             for (name, r) in verdicts {
                 match r {
                     Ok(acc) => {
